@@ -264,6 +264,30 @@ int main(int argc, char** argv) {
       del_raw(tmp);
       n_init = (size_t)nv;
       emit(objs, "concatv", o, 0, 0, 0, 0, "", hc_exc, 0);
+    } else if (hc_is(0, "pushself")) {
+      /* pushself <o> <i> [<at>] : the new element is one of the sequence's own (get(c, i)); growing or shifting the storage
+         must not pull it away under the call */
+      long long i = hc_int(2); hc_exc = "";
+      if ((long long)len(c) > 0) {
+        i = ((i % (long long)len(c)) + (long long)len(c)) % (long long)len(c);
+        var own = get(c, $I(i)); int v = vt_token(vt_k, vt_nk, own);
+        if (hc_nw > 3) { long long at = hc_int(3); HC_TRY(push_at(c, own, $I(at))); emit(objs, "pushat", o, v, at, 0, 0, "", hc_exc, 0); }
+        else { HC_TRY(push(c, own)); emit(objs, "push", o, v, 0, 0, 0, "", hc_exc, 0); }
+      } else { var e = isT ? tup_elem(1) : vt_make(vt_k, 1); HC_TRY(push(c, e)); arg_done(e, isT); emit(objs, "push", o, 1, 0, 0, 0, "", hc_exc, 0); }
+    } else if (hc_is(0, "xassign")) {
+      /* xassign <o> <tok>... : a TEMPORARY Array and List of this element type (the given elements) are each overwritten by
+         assign from sequences of a DIFFERENT element type and size (Int, then a 12-byte record), then deleted: every element
+         they held must have been finalised exactly once (the ledger of the event shows it), nothing else may change */
+      int nv = hc_nw - 2;
+      hc_exc = "";
+      for (int kk = 1; kk <= 2 && !hc_exc[0]; kk++) {
+        var tmp = new_raw_with(kind_type(kk), tuple(vt_type(etk)));
+        for (int i = 0; i < nv; i++) { var e = vt_make(vt_k, (int)hc_int(2 + i)); hc_exc = ""; push(tmp, e); arg_done(e, 0); }
+        var srcI = new_raw(Array, Int, $I(5), $I(6), $I(7)); var o1 = new_raw(Odd12, $I(3)), o2 = new_raw(Odd12, $I(4)); var srcO = new_raw(List, Odd12, o1, o2); del_raw(o1); del_raw(o2);
+        HC_TRY(assign(tmp, srcI); assign(tmp, srcO); assign(tmp, srcI));
+        del_raw(tmp); del_raw(srcI); del_raw(srcO);
+      }
+      emit(objs, "xassign", o, 0, 0, nv, 0, "", hc_exc, 0);
     } else if (hc_is(0, "fromit")) {
       /* fromit <o> assign|concat tree|table|slice|filter <tok>... : the operand is another kind of iterable over the same
          element type; what it yields (its own forward iteration, logged as vals) is what must arrive, in that order */
